@@ -34,56 +34,109 @@ def run(ctx) -> list[Inst]:
     prog = ctx.prog
     insts = []
     # ------------------------------------------------------------------ (a)
-    f = prog.func('MalCompiler.compile')
+    compile_f = prog.func('MalCompiler.compile')
+    props = ('C17',)
+    cls = prog.cls('MalCompiler')
+    # installer helpers anywhere in the package: h(.., recognizer, .., listener, ..) calling
+    # recognizer.addErrorListener(listener)
+    installers = {}
+    for g in prog.all_funcs():
+        for n in own_nodes(g.node):
+            if isinstance(n, ast.Call) and isinstance(n.func, ast.Attribute) and n.func.attr == 'addErrorListener' \
+                    and isinstance(n.func.value, ast.Name) and n.func.value.id in g.params and n.args \
+                    and isinstance(n.args[0], ast.Name) and n.args[0].id in g.params:
+                installers[g.name] = (g, g.params.index(n.func.value.id), g.params.index(n.args[0].id))
+
+    def find_ctor(fn, name):
+        for n in own_nodes(fn.node):
+            if isinstance(n, ast.Call) and isinstance(n.func, ast.Name) and n.func.id == name:
+                return n
+        return None
+
+    f = None
+    for m in cls.methods.values():
+        if find_ctor(m, 'malParser') is not None:
+            f = m
+    if f is None:
+        raise AnalysisError('MalCompiler: construction of malParser not found in any method (anchor vanished)')
     cfg = ctx.cfg(f)
     rel = f.module.relpath
-    props = ('C17',)
-    parser_var = None
+    pm = {}
+    for n in ast.walk(f.node):
+        for ch in ast.iter_child_nodes(n):
+            pm[id(ch)] = n
+
+    def bound_var(ctor):
+        """(variable the constructed recognizer ends up in, the assignment statement)"""
+        cur = ctor
+        while id(cur) in pm:
+            cur = pm[id(cur)]
+            if isinstance(cur, ast.Assign) and isinstance(cur.targets[0], ast.Name):
+                return cur.targets[0].id, cur
+            if isinstance(cur, ast.stmt):
+                break
+        return None, None
+
+    def installs_on(ctor, var, assign):
+        """listener expressions installed on the recognizer (direct calls or installer helpers)"""
+        found = []
+        for n in own_nodes(f.node):
+            if not isinstance(n, ast.Call):
+                continue
+            if isinstance(n.func, ast.Attribute) and n.func.attr == 'addErrorListener' and n.args \
+                    and isinstance(n.func.value, ast.Name) and n.func.value.id == var:
+                found.append((n.args[0], cfg.owner(n)))
+            nm = n.func.attr if isinstance(n.func, ast.Attribute) else (n.func.id if isinstance(n.func, ast.Name) else '')
+            if nm in installers:
+                g, ri, li = installers[nm]
+                off = 1 if g.is_method and not g.is_staticmethod and isinstance(n.func, ast.Attribute) else 0
+                if g.is_staticmethod:
+                    off = 0
+                args = list(n.args)
+                ra = args[ri - off] if 0 <= ri - off < len(args) else None
+                la = args[li - off] if 0 <= li - off < len(args) else None
+                if ra is None or la is None:
+                    continue
+                if ra is ctor or (isinstance(ra, ast.Name) and ra.id == var) or any(x is ctor for x in ast.walk(ra)):
+                    found.append((la, cfg.owner(n)))
+        return found
+
+    pctor = find_ctor(f, 'malParser')
+    parser_var, passign = bound_var(pctor)
     parse_node = None
-    parser_ctor_node = None
     for n in own_nodes(f.node):
-        if isinstance(n, ast.Assign) and isinstance(n.value, ast.Call) and isinstance(n.value.func, ast.Name) \
-                and n.value.func.id == 'malParser' and isinstance(n.targets[0], ast.Name):
-            parser_var = n.targets[0].id
-            parser_ctor_node = cfg.node_of(n)
-    if parser_var is None:
-        raise AnalysisError('MalCompiler.compile: construction of malParser not found (anchor vanished)')
-    for n in own_nodes(f.node):
-        if isinstance(n, ast.Call) and isinstance(n.func, ast.Attribute) and isinstance(n.func.value, ast.Name) \
-                and n.func.value.id == parser_var and not n.args and n.func.attr == 'mal':
+        if isinstance(n, ast.Call) and isinstance(n.func, ast.Attribute) and not n.args and n.func.attr == 'mal' \
+                and isinstance(n.func.value, ast.Name) and n.func.value.id == parser_var:
             parse_node = cfg.owner(n)
-    if parse_node is None:
-        raise AnalysisError('MalCompiler.compile: start-rule invocation parser.mal() not found')
+    if parser_var is None or parse_node is None:
+        raise AnalysisError(f'{f.short}: start-rule invocation <parser>.mal() not found')
     idiom = None
     detail = ''
+    for (lexpr, node) in installs_on(pctor, parser_var, passign):
+        if not (cfg.dominates(node, parse_node) and node is not parse_node):
+            detail = 'listener is added after/beside the parse call'
+            continue
+        cname = _class_of(ctx, f, lexpr, node)
+        c = prog.classes.get(cname) if cname else None
+        if c is None:
+            detail = f"listener class of '{stmt_text(lexpr)}' not found in the package"
+            continue
+        m = prog.find_method(c.name, 'syntaxError')
+        if m is None:
+            detail = f'{c.name} has no syntaxError method (default: ignore)'
+            continue
+        if _method_always_raises(ctx, m):
+            idiom = f'1: {c.name}.syntaxError always raises; listener installed before the start rule'
+        else:
+            detail = f'{c.name}.syntaxError can return normally (logs / counts only)'
     for n in own_nodes(f.node):
-        # idiom 1
-        if isinstance(n, ast.Call) and isinstance(n.func, ast.Attribute) and n.func.attr == 'addErrorListener' \
-                and isinstance(n.func.value, ast.Name) and n.func.value.id == parser_var and n.args:
-            node = cfg.owner(n)
-            if not cfg.dominates(node, parse_node):
-                detail = 'listener is added after/beside the parse call'
-                continue
-            cname = _class_of(ctx, f, n.args[0], node)
-            c = prog.classes.get(cname) if cname else None
-            if c is None:
-                detail = f"listener class of '{stmt_text(n.args[0])}' not found in the package"
-                continue
-            m = prog.find_method(c.name, 'syntaxError')
-            if m is None:
-                detail = f'{c.name} has no syntaxError method (default: ignore)'
-                continue
-            if _method_always_raises(ctx, m):
-                idiom = f'1: {c.name}.syntaxError always raises; listener added before parser.mal()'
-            else:
-                detail = f'{c.name}.syntaxError can return normally (logs / counts only)'
         # idiom 2
         if isinstance(n, ast.Assign) and isinstance(n.targets[0], ast.Attribute) \
                 and n.targets[0].attr == '_errHandler' and isinstance(n.targets[0].value, ast.Name) \
                 and n.targets[0].value.id == parser_var and isinstance(n.value, ast.Call) \
                 and 'Bail' in stmt_text(n.value.func):
             if cfg.dominates(cfg.node_of(n), parse_node):
-                idiom = '2: BailErrorStrategy installed before parser.mal()'
+                idiom = '2: BailErrorStrategy installed before the start rule'
     # idiom 3
     for g in cfg.nodes:
         if g.kind == 'if':
@@ -107,7 +160,8 @@ def run(ctx) -> list[Inst]:
     # any other error handling present (a listener of the package, a raise after the parse)?
     other_handling = False
     for n in own_nodes(f.node):
-        if isinstance(n, ast.Call) and isinstance(n.func, ast.Attribute) and n.func.attr == 'addErrorListener':
+        if isinstance(n, ast.Call) and isinstance(n.func, ast.Attribute) and (
+                n.func.attr == 'addErrorListener' or n.func.attr in installers):
             other_handling = True
         if isinstance(n, ast.Raise) and cfg.node_of(n) is not None and cfg.dominates(parse_node, cfg.node_of(n)):
             other_handling = True
@@ -154,21 +208,16 @@ def run(ctx) -> list[Inst]:
                  f"errors of a file that includes a clean file are forgotten and the malformed file is accepted"),
             file=rel, line=n.lineno, props=props))
     # (a4) lexer errors (characters that form no token) must surface as well
-    lexer_var = None
-    for n in own_nodes(f.node):
-        if isinstance(n, ast.Assign) and isinstance(n.value, ast.Call) and isinstance(n.value.func, ast.Name) \
-                and n.value.func.id == 'malLexer' and isinstance(n.targets[0], ast.Name):
-            lexer_var = n.targets[0].id
-    if lexer_var is not None and (idiom or other_handling):
+    lctor = find_ctor(f, 'malLexer')
+    lexer_var, lassign = bound_var(lctor) if lctor is not None else (None, None)
+    if lctor is not None and (idiom or other_handling):
         lex_ok = False
-        for n in own_nodes(f.node):
-            if isinstance(n, ast.Call) and isinstance(n.func, ast.Attribute) and n.func.attr == 'addErrorListener' \
-                    and isinstance(n.func.value, ast.Name) and n.func.value.id == lexer_var and n.args:
-                cname = _class_of(ctx, f, n.args[0], cfg.owner(n))
-                c = prog.classes.get(cname) if cname else None
-                m = prog.find_method(c.name, 'syntaxError') if c is not None else None
-                if m is not None:
-                    lex_ok = True
+        for (lexpr, node) in installs_on(lctor, lexer_var, lassign):
+            cname = _class_of(ctx, f, lexpr, node)
+            c = prog.classes.get(cname) if cname else None
+            m = prog.find_method(c.name, 'syntaxError') if c is not None else None
+            if m is not None:
+                lex_ok = True
         construct = '(a) lexer errors (characters that form no token) are reported too'
         if lex_ok:
             insts.append(Inst(RULE, f.short, construct, 'ok', file=rel, line=parse_node.lineno, props=props))
